@@ -116,6 +116,14 @@ func (fx *c17fix) build(frames []c17frame, run int) (enc [][]byte, tags []uint16
 			b = wire.Encode(wire.Twalk, tag, u(0), u(uint64(40+f.k)), f.names)
 		case 'V':
 			b = wire.Encode(wire.Tversion, tag, u(1<<16), v7)
+		case 'X':
+			// a frame the receiver rejects and whose body it throws away:
+			// a type it does not serve (Tgetlock), answered Rlerror under its tag
+			b = wire.Frame(54, tag, c17Data(run, i, f.n%300))
+		case 'S':
+			// a Twrite shorter than its fixed part: body thrown away, answered
+			// Rlerror under NOTAG
+			b = wire.Frame(wire.Twrite, tag, c17Data(run, i, f.n%16))
 		}
 		enc = append(enc, b)
 		tags = append(tags, tag)
@@ -144,7 +152,15 @@ func c17Streams(r *ev.Rand, n int) [][]c17frame {
 		{{kind: 'W', k: 4, off: 0, n: 300}}, {{kind: 'W', k: 5, off: 10, n: 5000}, {kind: 'R', k: 5, off: 0, n: 6000}},
 		{{kind: 'W', k: 0, off: 0, n: 60000}}, {{kind: 'R', k: 2, off: 100, n: 9000}, {kind: 'D'}, {kind: 'W', k: 1, off: 0, n: 2000}},
 	}
-	kinds := []byte{'W', 'W', 'R', 'D', 'G', 'K'}
+	// rejected frames between served ones: whatever follows a discarded body
+	// in the same read must still be received
+	ss = append(ss,
+		[]c17frame{{kind: 'G', k: 0}, {kind: 'X', n: 40}, {kind: 'G', k: 1}, {kind: 'W', k: 2, off: 0, n: 33}, {kind: 'G', k: 2}},
+		[]c17frame{{kind: 'X', n: 0}, {kind: 'G', k: 1}}, []c17frame{{kind: 'X', n: 299}, {kind: 'W', k: 1, off: 2, n: 700}, {kind: 'X', n: 7}, {kind: 'R', k: 0, off: 0, n: 50}},
+		[]c17frame{{kind: 'G', k: 3}, {kind: 'S', n: 9}, {kind: 'G', k: 4}, {kind: 'W', k: 0, off: 0, n: 12}},
+		[]c17frame{{kind: 'S', n: 15}, {kind: 'S', n: 0}, {kind: 'K', k: 0, names: []string{"a"}}, {kind: 'X', n: 100}, {kind: 'D'}},
+	)
+	kinds := []byte{'W', 'W', 'R', 'D', 'G', 'K', 'X', 'S', 'W', 'R', 'G'}
 	for i := 0; i < n; i++ {
 		k := 1 + r.Intn(6)
 		var s []c17frame
@@ -224,7 +240,17 @@ func (fx *c17fix) deliver(c *ev.Ctx, frames []c17frame, cuts []int, oneByte bool
 		}
 	}
 	ref := &c17ref{replies: map[uint16][]byte{}}
-	for _, tag := range tags {
+	nS := 0
+	for i, f := range frames {
+		if f.kind == 'S' {
+			nS++
+			fx.p.Forget(tags[i], wire.Twrite) // answered under NOTAG
+		}
+	}
+	for i, tag := range tags {
+		if frames[i].kind == 'S' {
+			continue
+		}
 		r, ok, out, dump := fx.p.WaitTag(tag, from)
 		if !ok {
 			det := map[string]any{"stream": streamKey(frames), "cuts": cuts, "one_byte": oneByte, "socket": fx.sp != nil, "missing_tag": tag}
@@ -253,7 +279,17 @@ func (fx *c17fix) deliver(c *ev.Ctx, frames []c17frame, cuts []int, oneByte bool
 	}
 	sort.Strings(cl)
 	ref.calls = strings.Join(cl, ";")
+	if nS > 0 {
+		// one NOTAG Rlerror per short frame, whatever the segmentation
+		if out, dump := quiesce.WaitUntil(func() bool { return fx.p.NReplies() >= from+len(frames) }, wd); out != quiesce.CondMet {
+			hang(c, out, dump, "C17:srv:message-lost-under-segmentation:"+fx.pathName(), map[string]any{"stream": streamKey(frames), "cuts": cuts, "one_byte": oneByte, "replies": fx.p.NReplies() - from, "frames": len(frames)})
+			return nil, false
+		}
+	}
 	for _, m := range fx.p.Monitor() {
+		if nS > 0 && strings.HasPrefix(m, "reply-stream:unsolicited-reply type=Rlerror tag=65535") {
+			continue
+		}
 		c.Violation("C17:srv:reply-stream:"+firstWord(m), map[string]any{"monitor": m, "stream": streamKey(frames), "cuts": cuts})
 	}
 	return ref, true
